@@ -8,6 +8,8 @@
 (*   kids  kids[x] children of x *in the order their text appears*           *)
 (*   lab   lab[x]  the label of the edge par[x] -> x (unique among siblings; *)
 (*         in the real tree the astfield (name, index))                      *)
+(*   sp    sp[x]   position of x in kids[par[x]] (0 for the root); derived,  *)
+(*         kept in the record only so that moves are O(1) (see SpOf)         *)
 (*                                                                           *)
 (* Two families of definitions:                                              *)
 (*  - sequences (what a walk yields): PreD / PostD / BothD, WalkSeq          *)
@@ -83,20 +85,24 @@ WalkNodes(T, x, on, back, recurse, self_, F) == NodesOf(WalkSeq(T, x, on, back, 
 (* ------------------------------------------------------------------------ *)
 (* local moves                                                              *)
 
-FirstIn(s, from, F) == LET I == {i \in from..Len(s) : s[i] \in F} IN IF I = {} THEN 0 ELSE s[MinOf(I)]
-LastIn(s, to, F)    == LET I == {i \in 1..to : s[i] \in F}        IN IF I = {} THEN 0 ELSE s[MaxOf(I)]
+(* first / last element of s at or after / at or before an index that is in F, 0 if none *)
+RECURSIVE FirstIn(_, _, _)
+FirstIn(s, from, F) == IF from > Len(s) THEN 0 ELSE IF s[from] \in F THEN s[from] ELSE FirstIn(s, from + 1, F)
+RECURSIVE LastIn(_, _, _)
+LastIn(s, to, F)    == IF to < 1 THEN 0 ELSE IF s[to] \in F THEN s[to] ELSE LastIn(s, to - 1, F)
 
 Sibs(T, x) == T.kids[T.par[x]]
+SpOf(kids, par) == [x \in DOMAIN par |-> IF par[x] = 0 THEN 0 ELSE PosIn(kids[par[x]], x)]   \* how T.sp is derived
 
-NextSib(T, x, F) == IF T.par[x] = 0 THEN 0 ELSE FirstIn(Sibs(T, x), PosIn(Sibs(T, x), x) + 1, F)
-PrevSib(T, x, F) == IF T.par[x] = 0 THEN 0 ELSE LastIn(Sibs(T, x), PosIn(Sibs(T, x), x) - 1, F)
+NextSib(T, x, F) == IF T.par[x] = 0 THEN 0 ELSE FirstIn(Sibs(T, x), T.sp[x] + 1, F)
+PrevSib(T, x, F) == IF T.par[x] = 0 THEN 0 ELSE LastIn(Sibs(T, x), T.sp[x] - 1, F)
 
 FirstChild(T, x, F) == FirstIn(T.kids[x], 1, F)
 LastChild(T, x, F)  == LastIn(T.kids[x], Len(T.kids[x]), F)
 
-(* p.next_child(c): c = 0 (None) starts the iteration                        *)
-NextChild(T, p, c, F) == IF c = 0 THEN FirstChild(T, p, F) ELSE FirstIn(T.kids[p], PosIn(T.kids[p], c) + 1, F)
-PrevChild(T, p, c, F) == IF c = 0 THEN LastChild(T, p, F)  ELSE LastIn(T.kids[p], PosIn(T.kids[p], c) - 1, F)
+(* p.next_child(c) for a child c of p: c = 0 (None) starts the iteration       *)
+NextChild(T, p, c, F) == IF c = 0 THEN FirstChild(T, p, F) ELSE FirstIn(T.kids[p], T.sp[c] + 1, F)
+PrevChild(T, p, c, F) == IF c = 0 THEN LastChild(T, p, F)  ELSE LastIn(T.kids[p], T.sp[c] - 1, F)
 
 (* one unfiltered step of the forward / backward walk; top = 0 or the node   *)
 (* that bounds the walk (never returned, never left)                         *)
@@ -149,6 +155,18 @@ FromPathAt(T, a, p, i) ==
   ELSE LET C == {c \in SeqRange(T.kids[a]) : T.lab[c] = p[i]}
        IN IF C = {} THEN 0 ELSE FromPathAt(T, CHOOSE c \in C : TRUE, p, i + 1)
 FromPath(T, a, p) == FromPathAt(T, a, p, 1)
+
+(* The same answers read off the walk sequence (what "step_fwd reproduces the  *)
+(* walk order" says): nt = NextTab(pre, F) gives for every position i (stored  *)
+(* at i + 1, i = 0..Len) the next position > i holding a node of F; the node   *)
+(* after x is looked up behind x (recurse_self) or behind x's last descendant. *)
+RECURSIVE NextTabAcc(_, _, _, _, _)
+NextTabAcc(s, F, i, nxt, acc) ==
+  IF i < 0 THEN acc
+  ELSE NextTabAcc(s, F, i - 1, IF i >= 1 /\ s[i] \in F THEN i ELSE nxt, <<nxt>> \o acc)
+NextTab(s, F) == NextTabAcc(s, F, Len(s), 0, <<>>)
+
+StepSeq(pre, ipre, nt, x, skip) == LET j == nt[ipre[x] + skip + 1] IN IF j = 0 THEN 0 ELSE pre[j]
 
 After(s, x) == LET i == PosIn(s, x) IN IF i = 0 THEN <<>> ELSE SubSeq(s, i + 1, Len(s))
 Sel(s, F)   == SelectSeq(s, LAMBDA y : y \in F)
